@@ -75,14 +75,17 @@ def sumSqrShift (x : List Int) : Int × Int :=
 /-- One coefficient of bwexpander.c:47/50: `(opus_int16)silk_RSHIFT_ROUND( silk_MUL( chirp_Q16, ar[i] ), 16 )`. -/
 def bweCoef (c a : Int) : Int := wrap16 (rshiftRound (c * a) 16)
 
-/-- The chirp update of bwexpander.c:48. -/
-def bweChirp (c : Int) : Int := c + rshiftRound (c * (c - 65536)) 16
+/-- The chirp update of bwexpander.c:48; `cm1` = `chirp_minus_one_Q16`, fixed at entry (bwexpander.c:42). -/
+def bweChirp (c cm1 : Int) : Int := c + rshiftRound (c * cm1) 16
 
-/-- `silk_bwexpander(ar, d, chirp_Q16)` (bwexpander.c:36-51), `d = ar.length`. -/
-def bwexp16 : List Int → Int → List Int
+/-- The loop of bwexpander.c:46-50 with the running chirp `c`. -/
+def bwexpGo (cm1 : Int) : List Int → Int → List Int
   | [], _ => []
   | [x], c => [bweCoef c x]
-  | x :: y :: xs, c => bweCoef c x :: bwexp16 (y :: xs) (bweChirp c)
+  | x :: y :: xs, c => bweCoef c x :: bwexpGo cm1 (y :: xs) (bweChirp c cm1)
+
+/-- `silk_bwexpander(ar, d, chirp_Q16)` (bwexpander.c:35-51), `d = ar.length`. -/
+def bwexp16 (ar : List Int) (c : Int) : List Int := bwexpGo (c - 65536) ar c
 
 /-! ### silk_LPC_analysis_filter -/
 
@@ -107,7 +110,7 @@ def lpcAnalysisFilter (x : Array Int) (base : Int) (B : List Int) (len : Int) : 
   let d : Int := B.length
   if d < 6 ∨ d % 2 ≠ 0 ∨ d > len then .abort
   else .ok ((List.replicate B.length 0) ++
-            (List.range (len - d).toNat).map fun t => firSample x B (base + d + (t : Int)))
+            (List.range (len - d).toNat).map fun (t : Nat) => firSample x B (base + d + (t : Int)))
 
 /-! ### the LPC synthesis loop shared by PLC.c:371-398 and CNG.c:153-183 -/
 
